@@ -23,7 +23,7 @@ RULE = ('frame histories: first-noise kind {chi2, gaussian, normal alias, trunca
 ASSUMPTIONS = [
     'every statistical test has two-sided false-alarm probability <= 2e-9 under the claimed law (exact chi-squared/normal/binomial '
     'laws, Pearson statistic of the PIT in 32 cells vs chi2_31, Kolmogorov distance vs the DKW-Massart bound, truncated Chernoff '
-    'bound for the second moment of chi-squared noise about the claimed mean); <= 1e5 tests per thorough run => family-wise < 1e-3',
+    'bound for the second moment of chi-squared noise about the claimed mean); <= 3e5 tests per thorough run => family-wise < 1e-3',
     'round(df*dt): when the exact product is within 1e-9 of a half-integer either neighbouring integer is accepted for k',
     'sigma-clipped re-estimate = median-centred, 3 sigma, at most 5 iterations, mean and population std of the survivors '
     '(parameters taken from the anchored estimator); compared at rel 1e-9, and if a clip boundary decision is within 1e-12 '
@@ -218,7 +218,7 @@ def _voltage_case(rng, j, tier):
 
 def gen_cases(seed, tier):
     rng = np.random.default_rng([seed, 11])
-    nf, nv = (1232, 180) if tier == 'quick' else (40000, 6000)
+    nf, nv = (1232, 180) if tier == 'quick' else (24640, 3600)
     cases = [_frame_case(rng, i, tier) for i in range(nf)]
     cases += [_voltage_case(rng, j, tier) for j in range(nv)]
     return cases
@@ -275,6 +275,9 @@ def run_tests(R, results, keybase, suffix=''):
             R.maximum('ks_over_dkw', det['d'] / det['eps'])
         elif name == 'mean' and 'z' in det:
             R.maximum('mean_z_over_zmax', abs(det['z']) / 5.9978)
+        elif name == 'variance':
+            lo, hi = det['band']
+            R.maximum('variance_dev_over_band', max((det['ratio'] - 1) / (hi - 1), (1 - det['ratio']) / (1 - lo)))
     return allok
 
 
